@@ -1,6 +1,7 @@
 package rules
 
 import (
+	"go/token"
 	"strings"
 
 	"golang.org/x/tools/go/ssa"
@@ -14,7 +15,7 @@ func init() {
 }
 
 func runC24(p *core.Prog, r *core.Report) {
-	r.Explain = "Decides that there is no path to local storage around validation, on all CFG paths: (R1) the put service's storage interface is called only by putObjectLocally, whose callers are the validated replication entry point and the distributed target's local write; the engine's Put is called only from the tabled callers; (R2) ValidateAndStoreObjectLocally stores only after format validation, content validation, declared-size equality, size limit and the SHA-256 payload comparison all passed; (R3) every object target the put streamer installs is a validating target with the format validator set, and a distributed target is created only inside such a target (directly, or behind the node's own slicer); (R4) the validating target forwards the header only after format validation passed and closes the next target only after payload size and checksum comparisons (for prepared objects); (R5) the format validator reports success for a prepared object only after its identifier was verified against the header and — unless it is an EC part, which is unsigned by design — its signature was authenticated; nested parent headers go through the same function.; (R6) AuthenticateObject succeeds for an object carrying a session token only after the token was found — on every call, outside the sessions cache — to be issued for the object's signer, and the part of the check that IS cached under the token's digest captures nothing but that token and process-wide services; (R7) validatingTarget.Write reports success only when the next target's Write and the quota check both returned nil. Not covered: that the validators' predicates are the right ones; chunking of payloads."
+	r.Explain = "Decides that there is no path to local storage around validation, on all CFG paths: (R1) the put service's storage interface is called only by putObjectLocally, whose callers are the validated replication entry point and the distributed target's local write; the engine's Put is called only from the tabled callers; (R2) ValidateAndStoreObjectLocally stores only after format validation, content validation, declared-size equality, size limit and the SHA-256 payload comparison all passed; (R3) every object target the put streamer installs is a validating target with the format validator set, and a distributed target is created only inside such a target (directly, or behind the node's own slicer); (R4) the validating target forwards the header only after format validation passed and closes the next target only after payload size and checksum comparisons (for prepared objects); (R5) the format validator reports success for a prepared object only after its identifier was verified against the header and — unless it is an EC part, which is unsigned by design — its signature was authenticated; nested parent headers go through the same function.; (R6) AuthenticateObject succeeds for an object carrying a session token only after the token was found — on every call, outside the sessions cache — to be issued for the object's signer, and the part of the check that IS cached under the token's digest captures nothing but that token and process-wide services; (R7) validatingTarget.Write reports success only when the next target's Write and the quota check both returned nil; (R8) an EC part is accepted only after its checksum was compared with the slot of the signed parent's checksum list that belongs to the part's own rule and part index. Not covered: that the validators' predicates are the right ones; chunking of payloads."
 	// ---------------- R1
 	r1 := r.Rule("C24.R1", "who may store locally: ObjectStorage.Put ← putObjectLocally ← {ValidateAndStoreObjectLocally, distributedTarget.writeObjectLocally}; engine.Put caller table", 4)
 	all := p.Funcs()
@@ -298,5 +299,80 @@ func runC24(p *core.Prog, r *core.Report) {
 			}, Comps: []core.Comp{{Result: 1, Kind: core.ErrNil}}},
 			core.G("within-quota", core.ErrNil, "(*pkg/services/object/put.validatingTarget).checkQuotaLimits"),
 		}})
+	}
+	// ---------------- R8 an EC part is bound to its position
+	r8 := r.Rule("C24.R8", "checkECParent succeeds only after the part's checksum text compared equal to the slice of the signed parent's checksum list whose start is computed from the part's own rule and part index (EC parts are unsigned: this is the only thing that ties a payload to its position)", 1)
+	if cf := p.Func("pkg/core/object.checkECParent"); cf == nil {
+		r.Fatalf("C24.R8: checkECParent not found")
+	} else {
+		// does v (an int expression) depend on the field f of the PartInfo parameter?
+		dependsOn := func(v ssa.Value, field string) bool {
+			seen := map[ssa.Value]bool{}
+			var rec func(x ssa.Value, d int) bool
+			rec = func(x ssa.Value, d int) bool {
+				if x == nil || seen[x] || d == 0 {
+					return false
+				}
+				seen[x] = true
+				switch y := x.(type) {
+				case *ssa.UnOp:
+					if fa, ok := y.X.(*ssa.FieldAddr); ok && strings.HasSuffix(core.FieldAddrName(fa), "ec.PartInfo)."+field) {
+						return true
+					}
+					return rec(y.X, d-1)
+				case *ssa.Field:
+					return strings.HasSuffix(core.FieldAddrNameOfField(y), "ec.PartInfo)."+field)
+				case *ssa.BinOp:
+					return rec(y.X, d-1) || rec(y.Y, d-1)
+				case *ssa.Phi:
+					for _, e := range y.Edges {
+						if rec(e, d-1) {
+							return true
+						}
+					}
+				case *ssa.Convert:
+					return rec(y.X, d-1)
+				}
+				return false
+			}
+			return rec(v, 10)
+		}
+		usesRuleIndex := false
+		for _, b := range cf.Blocks {
+			for _, in := range b.Instrs {
+				if bo, ok := in.(*ssa.BinOp); ok && bo.Op == token.EQL && (dependsOn(bo.X, "RuleIndex") || dependsOn(bo.Y, "RuleIndex")) {
+					usesRuleIndex = true
+				}
+			}
+		}
+		slot := core.Guard{Name: "checksum-equals-its-own-slot", Pure: true, Comps: []core.Comp{{Result: -1, Kind: core.IsFalse}}, Value: func(_ *ssa.Function, v ssa.Value) bool {
+			bo, ok := v.(*ssa.BinOp)
+			if !ok || bo.Op != token.NEQ || bo.X.Type().String() != "string" {
+				return false
+			}
+			for _, side := range []ssa.Value{bo.X, bo.Y} {
+				if sl, isSl := side.(*ssa.Slice); isSl && sl.Low != nil && dependsOn(sl.Low, "Index") && usesRuleIndex {
+					return true
+				}
+			}
+			return false
+		}}
+		slotEq := slot
+		slotEq.Name = "checksum-equals-its-own-slot(eq-form)"
+		slotEq.Comps = []core.Comp{{Result: -1, Kind: core.IsTrue}}
+		slotEq.Value = func(_ *ssa.Function, v ssa.Value) bool {
+			bo, ok := v.(*ssa.BinOp)
+			if !ok || bo.Op != token.EQL || bo.X.Type().String() != "string" {
+				return false
+			}
+			for _, side := range []ssa.Value{bo.X, bo.Y} {
+				if sl, isSl := side.(*ssa.Slice); isSl && sl.Low != nil && dependsOn(sl.Low, "Index") && usesRuleIndex {
+					return true
+				}
+			}
+			return false
+		}
+		core.CheckSuccessFn(p, r8, cf, core.SuccessRule{ResultIdx: -1, MinReturns: 1, Guards: []core.Guard{slot, slotEq},
+			Derived: []core.Derived{{Name: "part-bound-to-its-position", Alts: [][]string{{"checksum-equals-its-own-slot"}, {"checksum-equals-its-own-slot(eq-form)"}}}}, Need: []string{"part-bound-to-its-position"}})
 	}
 }
